@@ -360,19 +360,25 @@ class C16(Property):
             "for aliasing), set (typed keys incl. uint64 and the empty string, managed and unmanaged), cache (limit -1..5, "
             "random + phased fill/touch/evict/re-add/Del-Set/failed loads/a Set racing a Take's miss/a loader using the cache; "
             "key sets and sizes read without touching the recency order), cachew (wheel driven tick by tick, limit 0..3, "
-            "expiries -0.5..4.5 intervals), cache_take2 (two concurrent Takes, first loader gated), lin (2..4 free-running "
-            "goroutines on one queue/ring/cache/safemap/window after a sequential prefix); 15% of the sequential cases drive a "
-            "second instance alongside. Values 0 stand for nil, key 0 for the empty string / nil key. non-trivial = window: a "
+            "expiries -0.5..4.5 intervals), cache_take2 (two concurrent Takes, first loader gated), take_gate inside cache / cachew "
+            "(a Take parked in its loader while other keys - hash-stripe mates of the loaded key, bulk runs of 600..1200 keys - are "
+            "deleted / written / evicted / expire on ticks; judged as the sequential history 'those operations, then the Take'), lin "
+            "(2..4 free-running goroutines on one queue/ring/cache/safemap/window after a sequential prefix) and stress (3..4 "
+            "goroutines repeating scripts on disjoint keys / commutative adds / equal values: every answer determined), both run "
+            "by the executor built with -race, each case judged; 15% of the sequential cases drive a second instance alongside; "
+            "25% of the cache cases store values that cannot be compared (slices, maps, NaN structs). Values 0 stand for nil, key 0 for the empty string / nil key. non-trivial = window: a "
             "boundary was crossed and a Reduce returned a non-empty bucket; safemap: a Get hit after a Del or >= maxDeletion "
             "deletions; queue: a Put into a full buffer (growth) with items in flight; ring: a Take after more than n adds; "
             "set: both a positive and a negative Contains; cache: more distinct keys written than the limit, or a Take miss; "
-            "cachew: an entry seen present and later, after ticks, absent; lin: two calls of different goroutines overlapped. "
+            "cachew: an entry seen present and later, after ticks, absent; lin: two calls of different goroutines overlapped; take_gate: the loader was parked while at least one other "
+            "operation completed; stress: >= 2 goroutines x >= 50 rounds ran to the end. "
             "distinct = canonical JSON hash of the case")
     trusted_base = [
         "models theories/C16/Model.v, ModelW.v and theories/Lib/RollingWindow.v are hand-written; tie = correspondence run (harness/cmd/c16) on generated histories",
         "core/timex/relativetime.go and core/timex/ticker.go are replaced by overlays (virtual clock, hookable ticker); harness/overlay/collection/zz_verif_c16.go is added to package collection (Cache.size / key snapshot, one scripted action before the cache's single flight)",
         "Go maps, container/list, sync, singleflight (C07) are not modelled here; the timing wheel is C12's model",
-        "tools/c16sim.py steers the generators (where the structure stands); it judges nothing",
+        "tools/c16sim.py steers the generators (where the structure stands) and tools/c16hash.py picks keys that collide under murmur3 / FNV / CRC modulo small numbers; they judge nothing",
+        "take_gate / stress histories are put into their sequential order by tools/props/c16.py (flatten_cache, _stress_term); that this order is what the code's three-step Take does is Props.cache_take_held_is_take_after / cachew_take_held_is_take_after",
     ]
     assumptions = ["keys and values are compared with Go == on int64/int/uint/uint64/string/nil (model: Z)",
                    "sequential theorems: operations on one object are sequential; concurrent use is covered by the linearisability "
